@@ -102,7 +102,7 @@ def search_export_history(failure):
     # types with dependencies: every order of the same calls must leave the same directory (C06), in particular
     # export(T) before export_all(T) must not stop the dependencies from being exported
     for h in ([['export', 'C'], ['export_all', 'C']], [['export', 'D'], ['export_all', 'D']], [['export', 'A'], ['export_all', 'C']],
-              [['export_all_to', 'C', 'bindings'], ['export_all', 'D']]):
+              [['export_all_to', 'C', 'bindings'], ['export_all', 'D']], [['export_all', 'W1'], ['export_all', 'W2']], [['export', 'W2'], ['export', 'W1']]):
         a = run_history(h)
         b = run_history(list(reversed(h)))
         if a.get('files') != b.get('files'):
@@ -132,7 +132,7 @@ def search_lexical(failure):
     return None
 
 
-SEARCHERS = {'inflection': search_inflection, 'paths': search_paths, 'paths_esm': search_paths, 'export_chain': search_export_history, 'registry': search_export_history, 'lexical': search_lexical, 'recursion': search_export_history}
+SEARCHERS = {'inflection': search_inflection, 'paths': search_paths, 'paths_esm': search_paths, 'export_chain': search_export_history, 'registry': search_export_history, 'lexical': search_lexical, 'recursion': search_export_history, 'merge': search_export_history, 'merge_imports': search_export_history}
 
 
 def search(pid, unit, failure, seed):
